@@ -485,7 +485,38 @@ def run(ctx):
                     if nbad <= 6:
                         ctx.violation(dict(machine=name, input=list(data), sent=sent, framing_from_bytes=expect, field=field),
                                       'parser completed having consumed a different number of symbols than its length field allows')
-    cov['evaluations'] = len(cases) + len(eng) + nlib + nlibeng
+    # ---- D. the command parsers take their limit from the header's length FIELD (enip.length), also when the collected payload
+    # (enip.input) is longer - the way client.py runs them: path='enip', source = the payload bytes
+    import cpppo
+    from cpppo import dotdict
+    from cpppo.server.enip import parser as P
+    ncip = 0
+    ucmm = bytes([0x4C, 0x02, 0x20, 0x02, 0x24, 0x01, 0x01, 0x00])
+    sdata = struct.pack('<IHHHHHH', 0, 5, 2, 0, 0, 0xB2, len(ucmm)) + ucmm
+    for cmd, body in ((0x65, struct.pack('<HH', 1, 0)), (0x6F, sdata), (0x04, struct.pack('<HHHHH', 1, 0x100, 20, 1, 0x20) + b'Communications\x00\x00'),
+                      (0x63, b''), (0x70, struct.pack('<IHHHHIHH', 0, 0, 2, 0xA1, 4, 7, 0xB1, 2 + len(ucmm)) + b'\x01\x00' + ucmm)):
+        for declared in sorted({len(body), max(len(body) - 1, 0), max(len(body) - 3, 0), len(body) // 2, 0}):
+            for extra in (b'', b'\x00', b'\x01\x00\x00\x00', b'\x00' * 8):
+                d = dotdict()
+                d.enip = dotdict(command=cmd, length=declared, session_handle=7, status=0, options=0)
+                d.enip.sender_context = dotdict(input=bytearray(b'ctxtctxt'))
+                d.enip.input = bytearray(body + extra)
+                src = cpppo.peekable(bytes(body + extra))
+                ncip += 1
+                try:
+                    with P.CIP(terminal=True) as m:
+                        for _ in m.run(path='enip', source=src, data=d):
+                            pass
+                        term = m.terminal
+                except Exception:
+                    continue                       # failing is allowed
+                if term and src.sent > declared:
+                    nbad += 1
+                    if nbad <= 6:
+                        ctx.violation(dict(machine='CIP (command 0x%02x) run on enip.input' % cmd, payload=list(body + extra), declared_length=declared, consumed=src.sent),
+                                      'command parser completed having consumed more than the header length field allows')
+    cov['cip_on_payload_runs'] = ncip
+    cov['evaluations'] = len(cases) + len(eng) + nlib + nlibeng + ncip
     cov['library_machines_outside_the_interpreter'] = lunsup
     cov['distinct_nontrivial'] = nsrc_nontrivial + nok + nlib_ok
     cov['exhaustive'] = False
